@@ -68,9 +68,18 @@ func newSampleIterator(iter iterators.Iterator[entry], expr *logql.RangeAggregat
 	return &sampleIterator{
 		iter:    iter,
 		sampler: sampler,
-		by:      buildSet(nil, by...),
+		by:      buildBySet(expr.Grouping, by),
 		without: buildSet(nil, without...),
 	}, nil
+}
+
+// buildBySet returns nil if there is no `by` clause and a non-nil
+// (possibly empty) set otherwise: `by ()` keeps no label.
+func buildBySet(g *logql.Grouping, by []logql.Label) map[string]struct{} {
+	if g == nil || g.Without {
+		return nil
+	}
+	return buildSet(map[string]struct{}{}, by...)
 }
 
 func (i *sampleIterator) Next(s *logqlmetric.SampledEntry) bool {
